@@ -47,15 +47,24 @@ EXTRA = {
            "axes and pending scale factors at contract sites."
            " No write through a view of the shared image / noise arrays "
            "in the blind fit (R10); the fitted pixels are blanked "
-           "wherever another island's label is present (R11).",
+           "wherever another island's label is present (R11)."
+           " The point-source shortcut for small islands is interpreted "
+           "for 7 pixels and 3-pixel-wide islands (R12).",
     "C02": " Also: the island loop visits all labels with the exact label "
            "slices, blanks a copy, and passes (row, column) offsets (R8)."
            " The image handed to find_islands has its background "
-           "subtracted exactly once (R9).",
+           "subtracted exactly once (R9)."
+           " A pre-selected island loop enumerates exactly the seeded "
+           "labels (label-set domain, R8); the guards of the "
+           "background subtraction are interpreted over sample "
+           "backgrounds (R9).",
     "C03": " Also: sign of every value stored into err_* (R11), the island "
            "number stored is the island's own (R2)."
            " The sexagesimal formatters carry after the integer "
-           "rounding and wrap afterwards (R12, R13; shared with C17).",
+           "rounding and wrap afterwards (R12, R13; shared with C17)."
+           " Island rows by role: extent, pixel count, component count, "
+           "widths, selection parity (R9); flag bits reach the stored "
+           "flags parameter (R14).",
     "C04": " Also: each err_* field depends on the stderr of its own "
            "parameter (R8, dependency analysis), covariance-model contract "
            "sites (R9), no narrow dtype in fitting.py (R7)."
@@ -65,56 +74,79 @@ EXTRA = {
            "symbolic with counter-example), default regrouping length in "
            "arcmin (R8)."
            " Cut-outs given as slice objects (R3, R4); no write through "
-           "a view of the shared arrays in the refit (R9).",
+           "a view of the shared arrays in the refit (R9)."
+           " Catalogues without psf columns keep their sources in "
+           "resize (R10, interpreted for nan).",
     "C06": " Also: double precision until the final cast (R6), row / column "
            "axis discipline of the worker (R7), plane addressing of 3-d / "
            "4-d inputs (R8).",
     "C07": " Also: row / column axis discipline of the stripe halo and box "
            "(R7)."
            " The pool / barrier rule is decided when only one side is "
-           "clamped (R1).",
+           "clamped (R1)."
+           " Pool typestate: join only after close / terminate; names "
+           "read before the release are bound on failure paths (R4).",
     "C08": " Also: bypass paths of the set operations only where the "
            "operation is the identity (R3), the cache is never mutated in "
            "place (R9), no narrow integer / float dtype (R10), add_pixels "
-           "adds (R11).",
+           "adds (R11)."
+           " Derived caches are reset with the demoted cache (R12).",
     "C09": " Also: membership look-up contract of numpy.isin (R6), the "
            "non-finite mask is exact and taken from values that are still "
-           "non-finite (R3), angular-length vs coordinate kinds.",
+           "non-finite (R3), angular-length vs coordinate kinds."
+           " Cache aliasing (R7, shared with C08-R9).",
     "C10": " Also: enumeration order of the pixel list vs reshape (R7), "
            "undefined coordinates never inside (R8), column-name kinds."
            " Paths that bypass the masked write exist only behind an "
-           "emptiness test of the final mask (R3).",
+           "emptiness test of the final mask (R3)."
+           " The driver mask_file writes no pixel values itself; every "
+           "plane goes through the 2-d routine (R3, R4).",
     "C11": " Also: the tested pixels are exactly the own pixels (R2), the "
            "flattening sees every stored level (R6)."
            " The region is never re-bound or dropped on a partial test; "
-           "membership is decided in the island loop (R3).",
+           "membership is decided in the island loop (R3)."
+           " Derived caches of the membership test are reset with the "
+           "demoted cache (R7).",
     "C12": " Also: cache aliasing (R6), vertex (lon, lat) order and RA in "
-           "hours at SkyCoord (R4).",
+           "hours at SkyCoord (R4)."
+           " No sign carried by an integer sexagesimal field in the DS9 "
+           "writer (R4).",
     "C13": " Also: parity analysis under image -> -image of the detection "
            "statistic, summit key, summit acceptance (R4) and of the "
-           "catalogue fields (R5).",
+           "catalogue fields (R5)."
+           " Guards of load_globals on pixel data take the same value "
+           "for negated data (R6).",
     "C14": " Also: off-image skip guards evaluated over orderings (R4)."
            " The guards are also interpreted for an undefined (NaN) "
-           "centre (R4).",
+           "centre (R4)."
+           " Single-precision table cells are promoted to double (R7).",
     "C15": " Also: node arrays not edited after their definition, "
            "decimation starts at pixel 0 (R3)."
            " Row and column extents of compress never influence each "
-           "other (R5).",
+           "other (R5)."
+           " The output file is written after the last header / data "
+           "modification (R6).",
     "C16": " Also: dependency of each output of the ellipse / vector "
            "transforms on its own inputs (R5), |cos(defect)| correction in "
            "both siblings (R7), no narrow dtype (R6)."
-           " Position angles from two-argument arctangents (R8).",
+           " Position angles from two-argument arctangents (R8)."
+           " No memoised or shared state in the conversions (R9).",
     "C17": " Also: conditioning near zero separation (R6), purity of the "
            "vectorised primitives (R7), no narrow dtype (R8)."
            " The rounded seconds are an integer number of output "
            "quanta, not rescaled afterwards (R4).",
     "C18": " Also: exhaustive type dispatch of the sqlite and FITS writers "
            "(R7), value provenance in the reader (R4)."
-           " No reordering between catalogue and table rows (R8).",
-    "C19": " Also: no narrow dtype in the grouping pipeline (R8).",
+           " No reordering between catalogue and table rows (R8)."
+           " The per-type outputs are independent of each other (R9).",
+    "C19": " Also: no narrow dtype in the grouping pipeline (R8)."
+           " Ratio 1 is the identity also for unknown (nan) psf (R7); "
+           "the greedy variant joins the matched group exactly once "
+           "(R9).",
     "C20": " Also: plane addressing of cubes with sibling agreement (R5), "
            "BSCALE applied exactly once (R6)."
-           " No memoised or module-level state on the load path (R7).",
+           " No memoised or module-level state on the load path (R7)."
+           " Compressed inputs recognised by keyword presence (R8).",
 }
 
 
